@@ -335,11 +335,17 @@ class Run:
                 continue
             if o.engine == "kani":
                 payload = getattr(o, "replay_payload", {"engine": "kani", "failed_checks": o.detail})
+                if getattr(o, "has_input", False) and getattr(o, "reproduced", None) is False:
+                    # the verifier produced a counterexample, but executing the same harness natively on the
+                    # real code with exactly those inputs does not fail: a spurious counterexample (verifier
+                    # imprecision), not a violation
+                    o.status = "undecided"
+                    path = write_replay(self.prop, o.name + ".spurious", payload)
+                    o.detail = "counterexample does not replay on the real code (spurious; see %s): %s" % (path, o.detail)
+                    self.undecided.append("%s: %s" % (o.name, o.detail[:400]))
+                    continue
                 path = write_replay(self.prop, o.name, payload)
                 suffix = "" if getattr(o, "reproduced", None) else " no-failing-input-found"
-                if getattr(o, "has_input", False) and getattr(o, "reproduced", None) is False:
-                    # counterexample exists but the native run does not panic (e.g. contract-only check)
-                    suffix = " no-failing-input-found"
                 self.kani_replays[o.name] = path
                 self.violations.append((o, path, suffix))
             elif o.engine == "verus":
